@@ -22,7 +22,7 @@ def run(rep, tier, seed):
         raise tlc.MachineryError("leg A: MC_GrammarPath violated on the shipped specification\n" + a["out"][-2500:])
     rng = random.Random(seed + 13)
     events, recipes = [], {}
-    for _ in range(1500 if tier == "quick" else 50000):
+    for _ in range(3000 if tier == "quick" else 50000):
         try:
             if rng.random() < 0.55:
                 rr = rule_recipe(rng)
